@@ -56,7 +56,7 @@ Section Canon.
 
   (* ---------- canonical columns ---------- *)
   Definition mkcol (name : str) (i : nat) (p : pvalue) : column :=
-    {| ckey := name; cidx := Some (Z.of_nat i); cval := {| pv := p; perrs := [] |} |}.
+    {| ckey := name; cidx := Some (Z.of_nat i); cval := {| pv := p; perrs := []; poid := Z.of_nat i |} |}.
 
   (* a cell: column name and the value it holds *)
   Fixpoint canon_cols (i : nat) (cells : list (str * pvalue)) : list column :=
@@ -166,7 +166,7 @@ Section Canon.
     assert (E : assoc (ckey c) (rdict (rec_of cs)) = Some c).
     { apply in_assoc; [now rewrite rec_of_keys|]. unfold rec_of. cbn [rdict].
       apply in_map_iff. exists c. split; [reflexivity|assumption]. }
-    rewrite E, str_eqb_refl. destruct (cidx c); [now rewrite Z.eqb_refl|reflexivity].
+    rewrite E. apply Z.eqb_refl.
   Qed.
 
   Lemma sync_errs_canon ln cells :
@@ -313,7 +313,8 @@ Section Parse.
         - destruct Hparse as (w & Hw & ->). now rewrite Hw. }
       rewrite Hb.
       change {| ckey := c_name c; cidx := Some (Z.of_nat (length done));
-                cval := {| pv := c_pv c; perrs := [] |} |} with (mkcol (c_name c) (length done) (c_pv c)).
+                cval := {| pv := c_pv c; perrs := []; poid := Z.of_nat (length done) |} |}
+        with (mkcol (c_name c) (length done) (c_pv c)).
       rewrite (column_validate_cell sem s (length done) (c_name c) (c_pv c) true ln Hvalid).
       rewrite with_perrs_mkcol.
       assert (Hfresh : assoc (c_name c) (rdict (canon_rec done)) = None).
@@ -417,16 +418,24 @@ Section Accept.
     - replace (i + S j)%nat with (S i + j)%nat by lia. eapply IH; eauto.
   Qed.
 
+  (* a slot without the identity of the column object in it *)
+  Definition slot_view (o : option column) : option (str * option Z * pvalue * list verr) :=
+    option_map (fun c => (ckey c, cidx c, pv (cval c), perrs (cval c))) o.
+
   Lemma canon_of_cols (cols : list column) : forall i,
     (forall j c, nth_error cols j = Some c -> cidx c = Some (Z.of_nat (i + j))) ->
-    map (fun c => with_perrs c []) cols = canon_cols i (map cell_of cols).
+    map slot_view (map (fun c => Some (with_perrs c [])) cols)
+    = map slot_view (map Some (canon_cols i (map cell_of cols))).
   Proof.
     induction cols as [|c cols IH]; intros i H; [reflexivity|].
     cbn [map canon_cols cell_of]. f_equal.
     - pose proof (H O c eq_refl) as H0. rewrite Nat.add_0_r in H0.
-      unfold with_perrs, mkcol. now rewrite H0.
+      unfold slot_view, with_perrs, mkcol. cbn [option_map ckey cidx cval pv perrs]. now rewrite H0.
     - apply IH. intros j c' Hj. replace (S i + j)%nat with (i + S j)%nat by lia. exact (H (S j) c' Hj).
   Qed.
+
+  Lemma cell_of_with_perrs (c : column) e : cell_of (with_perrs c e) = cell_of c.
+  Proof. reflexivity. Qed.
 
   (* a clean column.validate(scheme=s) for a stored column at position j *)
   Lemma column_validate_nil_cell (s : scheme) (c : column) j :
@@ -474,7 +483,8 @@ Section Accept.
       rlist (mcols r) = map Some cols /\
       map ckey cols = s_names s /\
       cells_valid sem s 0 (map cell_of cols) /\
-      rlist (mcols r') = map Some (canon_cols 0 (map cell_of cols)) /\
+      rlist (mcols r') = map (fun c => Some (with_perrs c [])) cols /\
+      map slot_view (rlist (mcols r')) = map slot_view (map Some (canon_cols 0 (map cell_of cols))) /\
       mline r' = mline r.
   Proof.
     intros Ht ND H Herr. rewrite record_validate_unfold in H. unfold finish, rv_core in H.
@@ -491,7 +501,7 @@ Section Accept.
     assert (Hvalid : forall j c, nth_error cols j = Some c -> cell_valid sem s j (ckey c) (pv (cval c))).
     { intros j c Hj. apply column_validate_nil_cell; [exact Ht|exact (Hpos j c Hj)|].
       rewrite Forall_forall in Hall. apply Hall. eapply nth_error_In; eauto. }
-    exists cols. split; [exact Hslots|]. split; [|split; [|split; [|reflexivity]]].
+    exists cols. split; [exact Hslots|]. split; [|split; [|split; [reflexivity|split; [|reflexivity]]]].
     - apply list_eq_nth.
       + unfold s_names. rewrite !map_length. lia.
       + intros j x Hj. rewrite nth_error_map in Hj. destruct (nth_error cols j) as [c|] eqn:Ej; [|discriminate].
@@ -501,7 +511,7 @@ Section Accept.
     - apply cells_valid_nth. intros j n p Hj. rewrite nth_error_map in Hj.
       destruct (nth_error cols j) as [c|] eqn:Ej; [|discriminate]. injection Hj as <- <-.
       cbn [Nat.add]. exact (Hvalid j c Ej).
-    - rewrite <- (canon_of_cols cols 0 Hpos). now rewrite map_map.
+    - exact (canon_of_cols cols 0 Hpos).
   Qed.
 
   (* str(record) only looks at the slot list *)
